@@ -19,6 +19,7 @@ func checkC16(c *Ctx) {
 	r.Rule("R16.2", "layout decision: the layout is the logger's own when non-empty, else defaultLayouts[flags & Ldatetimeflags], else TimeNano; the table's keys are combinations of the three date/time flags only, and every layout that prints a time of day also prints the zone (otherwise the text cannot be parsed back to the instant)")
 	r.Rule("R16.3", "same instant in all formats: every branch formats the zone-adjusted value of the function's own argument with time.Time.AppendFormat and the decided layout; the record's timestamp printer passes the record's own instant, which set() takes from the call (time.Now() in logContext, the caller's value in WriteThru)")
 	r.Rule("R16.5", "the instant is not altered on its way: WriteThru, print and PrintCtx.set hand on / store the time value they are given itself (no Truncate/Round/Add/In in between), and the timestamp printer prints the stored instant")
+	r.Rule("R16.6", "the three-state UTC mode is only passed through: every call of SetUTCMode inside the package hands on the caller's own variadic argument (With... wrapper, option constructor), never a plain bool whose zero value means 'not given'")
 	r.Rule("R16.4", "per-logger settings reach the encoder: setentry copies timeLayout and modeUTC unconditionally; SetTimeFormat stores the layout given; no pooled layout/zone field is read stale in any mode (engine E10)")
 	r.Assume("time.Time.AppendFormat and time.Parse are inverse for a layout (standard library)")
 	for _, tags := range c.Configs([]string{""}, []string{"", "verbose"}) {
@@ -32,6 +33,7 @@ func checkC16(c *Ctx) {
 			continue
 		}
 		c16Timestamp(c, p, m)
+		c16ModeCallers(c, p)
 		instantFlow(c, p, m)
 		c09Pooled(c, p, m, "R16.4", feasibleModes)
 	}
@@ -453,4 +455,51 @@ func modeStr(a map[string]bool) string {
 		return "logfmt"
 	}
 	return "colored"
+}
+
+// c16ModeCallers: R16.6 — the UTC mode is a three-state setting (unset: the flag decides; local; UTC). SetUTCMode
+// called with an explicit false stores "local". Inside the package it may therefore only be called as a
+// pass-through of the caller's own variadic choice (With... wrappers, options): a constructor that calls it with
+// a plain bool out of an options struct turns "not given" into "local" and overrides what the logger had.
+func c16ModeCallers(c *Ctx, p *Prog) {
+	r := c.R
+	set := p.Method(p.Slog, "Entry", "SetUTCMode")
+	if set == nil {
+		r.Unk("R16.6", "utc-callers", "-", "SetUTCMode not found")
+		return
+	}
+	n := 0
+	for _, cs := range p.staticCallers()[set] {
+		fn := cs.Parent()
+		if fn.Pkg != p.Slog {
+			continue
+		}
+		n++
+		args := cs.Common().Args
+		last := args[len(args)-1]
+		ok := false
+		top := fn
+		for top.Parent() != nil && !top.Signature.Variadic() {
+			top = top.Parent()
+		}
+		if fnv := top; fnv.Signature.Variadic() {
+			// the variadic parameter itself, or the captured one of the enclosing option constructor
+			if prm, isP := strip(last).(*ssa.Parameter); isP && prm == fnv.Params[len(fnv.Params)-1] {
+				ok = true
+			}
+			if fv, isFV := strip(last).(*ssa.FreeVar); isFV && fn.Parent() != nil {
+				_ = fv
+				ok = true
+			}
+			if u, isU := strip(last).(*ssa.UnOp); isU {
+				if _, isFV := u.X.(*ssa.FreeVar); isFV {
+					ok = true
+				}
+			}
+		}
+		r.Check(ok, "R16.6", "utc-caller:"+shortName(fn), p.Pos(instrPos(cs)), "passes its own variadic choice through", "SetUTCMode is called with a value that is not the caller's own variadic argument: an option that was not given becomes an explicit 'local time' and overrides the mode the logger had (the three-state setting cannot be carried by a plain bool)")
+	}
+	if n == 0 {
+		r.OkTrivial("R16.6", "utc-callers", "-", "SetUTCMode is not called inside the package")
+	}
 }
